@@ -2,6 +2,7 @@
 guarantees): every shipped generator, smoother, hold-out and the sparse cover, on every
 small plate layout, over the FULL answer tree of the scripted random source."""
 import itertools
+import os
 import math
 from collections import Counter
 from fractions import Fraction
@@ -34,6 +35,15 @@ POOL = [
     (("d", 1.0), ("b", 0.0)),  # single agent whose control slot is a real drug name at dose 0
 ]
 POOL_COMBO_ONLY = [p for p in POOL if all(t[0] != CTL for t in p)]
+# three treatment columns (the same triples are measured on several samples because build_rows cycles through the pool)
+POOL_TRIPLE = [
+    (("a", 1.0), ("b", 1.0), ("c", 1.0)),
+    (("a", 1.0), ("b", 1.0), ("d", 1.0)),
+    (("b", 1.0), ("c", 1.0), ("d", 1.0)),
+    (("a", 1.0), ("c", 1.0), (CTL, 0.0)),
+    (("a", 1.0), ("b", 1.0), ("c", 1.0)),  # duplicate condition
+    (("c", 2.0), ("a", 1.0), ("b", 1.0)),
+]
 
 LEAF_CAP = 20000
 
@@ -63,7 +73,7 @@ def layouts(max_samples, max_plates, max_size, max_total):
 def build_rows(layout, n_obs, pool="mixed", all_observed=False):
     """layout: list (per sample) of unobserved plate sizes; n_obs rows go to an
     observed plate 'obs' (cycling over the samples)."""
-    P = POOL_COMBO_ONLY if pool == "combo" else (POOL[6:] + POOL[:6] if pool == "mixed5" else POOL)
+    P = POOL_COMBO_ONLY if pool == "combo" else (POOL[6:] + POOL[:6] if pool == "mixed5" else (POOL_TRIPLE if pool == "triple" else POOL))
     rows = []
     g = 0
     pid = 0
@@ -71,7 +81,7 @@ def build_rows(layout, n_obs, pool="mixed", all_observed=False):
         j = 0
         for size in sizes:
             for _ in range(size):
-                tr = P[(j + 2 * s) % len(P)]
+                tr = P[(j + 2 * s) % len(P)] if pool != "triple" else P[j % len(P)]  # triple: every sample gets the same triples
                 rows.append((f"s{s}", f"p{pid}", tr, round(0.05 + 0.1 * g, 4), all_observed))
                 g += 1
                 j += 1
@@ -170,6 +180,8 @@ def plan(tier, prop):
                 if kind == "pairwise" and total > 4 and tier == "quick":
                     continue
                 pools = ("mixed", "mixed5", "combo") if kind == "pairwise" else (("mixed", "mixed5") if kind == "segregate" else ("mixed",))
+                if kind in ("pairwise", "segregate") and total <= 4 and n_obs == 0:
+                    pools = pools + ("triple",)  # three treatment columns
                 for pool in pools:
                     items.append({"op": kind, "params": params, "layout": lay, "n_obs": n_obs, "pool": pool})
     # hold-outs
@@ -180,6 +192,12 @@ def plan(tier, prop):
                     if kind == "holdout_random" and sum(sum(t) for t in lay) + n_obs > (4 if tier == "quick" else 6):
                         continue
                     items.append({"op": kind, "params": {"fraction": f}, "layout": lay, "n_obs": n_obs, "pool": "mixed"})
+    # the hold-out through the command line (fraction parsing / defaults are part of what the user gets)
+    if prop == "C11":
+        for lay in lay_gen:
+            if 2 <= sum(sum(t) for t in lay) <= 4 and sum(len(t) for t in lay) >= 2:
+                for f in FRACTIONS:
+                    items.append({"op": "cli_holdout", "params": {"fraction": f}, "layout": lay, "n_obs": 0, "pool": "combo", "bound": 2})
     # operation objects that were already used once (state kept on the object between calls)
     reuse = []
     for it in items:
@@ -239,11 +257,35 @@ def execute(item, chooser):
             out = R.SparseCoverPlateGenerator(**item["params"]).generate_and_unmask_initial_plate(screen, rng)
         elif kind == "combo_filter":
             out = filter_dataset_to_treatments_that_appear_in_at_least_one_combo(screen)
+        elif kind == "cli_holdout":
+            out = _cli_holdout(screen, item["params"]["fraction"], rng)
         else:
             raise KeyError(kind)
     except Exception as exc:  # noqa: BLE001  (refusal: "whenever it returns")
         return before, None, exc
     return before, out, None
+
+
+def _cli_holdout(screen, fraction, rng):
+    """The hold-out as a user reaches it: prepare_retrospective_simulation --holdout-fraction f (no generator, no smoother:
+    mask everything, reveal one plate, split), every random answer scripted."""
+    import shutil
+    import batchie.cli.prepare_retrospective_simulation as prep
+    from batchie.data import Screen
+    from ..cli import run_cli
+    from .. import env
+
+    tmp = env.scratch_dir("c11cli")
+    saved = prep.get_prng_from_seed_argument
+    prep.get_prng_from_seed_argument = lambda args: rng
+    try:
+        a, tr, te = (os.path.join(tmp, x) for x in ("in.h5", "train.h5", "test.h5"))
+        screen.save_h5(a)
+        run_cli("prepare_retrospective_simulation", ["--data", a, "--training-output", tr, "--test-output", te, "--holdout-fraction", repr(float(fraction)), "--seed", 0])
+        return Screen.load_h5(tr), Screen.load_h5(te)
+    finally:
+        prep.get_prng_from_seed_argument = saved
+        shutil.rmtree(tmp, ignore_errors=True)
 
 
 def _keyed(rows):
@@ -264,6 +306,26 @@ def oracle_c11(item, before, out):
     """Returns list of (sig, message)."""
     kind = item["op"]
     bad = []
+    if kind == "cli_holdout":
+        train, test = out
+        tr, te = rows_of(train), rows_of(test)
+        f = item["params"]["fraction"]
+
+        def k5(rows):
+            return Counter((r[0], r[1], r[2], r[3], r[4]) for r in rows)
+        if k5(tr) + k5(te) != k5(before):
+            bad.append((f"C11|{kind}|partition", "training + test file is not the input multiset (plate labels included)"))
+        if not all(r[5] for r in te):
+            bad.append((f"C11|{kind}|test-mask", "the test file contains an unobserved experiment"))
+        sizes = Counter(r[4] for r in before)
+        taken = Counter(r[4] for r in te)
+        revealed = {r[4] for r in tr if r[5]}
+        for p_, size in sizes.items():
+            want = {0} if p_ in revealed else ceil_options(f, size)
+            if taken.get(p_, 0) not in want:
+                bad.append((f"C11|{kind}|count", f"--holdout-fraction {f}: plate {p_} ({'revealed' if p_ in revealed else 'unobserved'}, size {size}) gave "
+                                                 f"{taken.get(p_, 0)} rows to the test file, expected {sorted(want)}"))
+        return bad
     if kind.startswith("holdout"):
         train, test = out
         tr, te = rows_of(train), rows_of(test)
